@@ -14,7 +14,7 @@ from harness import lib, nodes
 from harness.lib import cb, cl, cn, cz, copt
 
 PROP = "C05"
-IMPORTS = "Base Cache"
+IMPORTS = "Base Cache CacheKeys"
 RULE = ("leaf: histories of 5-25 ops (assign incl. negative = failing and repeated values, run local, submit, ops while "
         "in flight, complete, clear failed) on a 2-input node, inputs partly missing at the start; comp: histories of 4-14 "
         "ops on a two-child macro incl. child additions (cache reset) and silent internal edits. Non-trivial: >=1 cache hit "
@@ -321,8 +321,14 @@ def wfd_trace(case, use_cache):
         for c in kids:
             c.use_cache = False
     tr = []
+    hits = []
     for op in case["ops"]:
         out = "done"
+        if use_cache:
+            # Node.cache_hit against python dict equality (CacheKeys.v), on the dictionaries the history produced
+            now = {k: _slot(v) for k, v in wf.inputs.to_value_dict().items()}
+            cached = None if wf._cached_inputs is None else {k: _slot(v) for k, v in wf._cached_inputs.items()}
+            hits.append([bool(wf.running), bool(wf.failed), now, cached, bool(wf.cache_hit)])
         try:
             if op[0] == "assign":
                 kids[op[1]].inputs.a.value = op[2]
@@ -349,6 +355,8 @@ def wfd_trace(case, use_cache):
         # the property speaks of what is returned and left in the OUTPUTS: a connected input that a cached run did not
         # re-fetch may show another value than its twin's, which is not part of the claim
         tr.append([out, [[], [_slot(c.outputs.y.value) for c in kids], bool(wf.running), bool(wf.failed)]])
+    if use_cache:
+        case["_hits"] = hits
     return tr
 
 
@@ -362,10 +370,23 @@ def run_impl(case):
 
 
 def model_view(case, obs):
+    if case["fam"] == "wfd":
+        return [1 if h[4] else 0 for h in case.get("_hits", [])]
     return [obs["cached"], obs["uncached"]]
 
 
+def _dict_coq(d):
+    from harness.lib import cs
+    slot = lambda v: "None" if v == "nd" else f"(Some {cz(v)})"     # noqa: E731
+    return cl(f"({cs(k)}, {slot(v)})" for k, v in d.items())
+
+
 def model_term(case):
+    if case["fam"] == "wfd":
+        if "_hits" not in case:
+            return None
+        return "OL " + cl(f"obs_hit {cb(r)} {cb(f)} {_dict_coq(now)} " +
+                          ("None" if c is None else f"(Some {_dict_coq(c)})") for r, f, now, c, _ in case["_hits"])
     if case["fam"] != "leaf":
         return None
     return f"OL [{leaf_term(case, True)}; {leaf_term(case, False)}]"
